@@ -185,3 +185,63 @@ C17_HASH_ITER_OK = {
         'CPU-side helper container exposing its own iteration; the edge is a class-hierarchy over-approximation of an unresolved IntoIterator::into_iter, it is not called during key generation',
 }
 C17_NONDET_OK = {}
+
+# ---------------------------------------------------------------- C10 / C11 CHECKED decoders: (decoder, [validators (alternatives as list)], what they enforce)
+_C = 'midnight_curves::'
+_FQ, _FP = _C + 'bls12_381::fq::Fq', _C + 'bls12_381::fp::Fp'
+C10_DECODERS = [
+    (_FQ + '::from_bytes_le', ['blst_scalar_fr_check'], 'scalar < r'),
+    (_FQ + '::from_bytes_be', ['blst_scalar_fr_check'], 'scalar < r'),
+    (_FQ + '::from_u64s_le', ['blst_scalar_fr_check'], 'scalar < r'),
+    ('<' + _FQ + ' as ff::PrimeField>::from_repr', ['blst_scalar_fr_check'], 'scalar < r'),
+    ('<' + _FQ + ' as ' + _C + 'serde_traits::SerdeObject>::from_raw_bytes', [['::is_less_than_modulus', 'blst_scalar_fr_check', '::is_valid']], 'Montgomery limbs < r (RawBytes format is documented to check this)'),
+    ('<' + _FQ + ' as ' + _C + 'serde_traits::SerdeObject>::read_raw', [['SerdeObject>::from_raw_bytes']], 'delegates to the checked from_raw_bytes'),
+    (_FP + '::from_bytes_le', ['::is_valid'], 'element < p'),
+    (_FP + '::from_bytes_be', ['::is_valid'], 'element < p'),
+    (_FP + '::from_u64s_le', ['::is_valid_u64'], 'element < p'),
+    ('<' + _FP + ' as ff::PrimeField>::from_repr', ['::is_valid'], 'element < p'),
+    ('<' + _FP + ' as ' + _C + 'serde_traits::SerdeObject>::from_raw_bytes', [['::is_less_than_modulus', '::is_valid', '::is_valid_u64']], 'Montgomery limbs < p (RawBytes format is documented to check this)'),
+    ('<' + _FP + ' as ' + _C + 'serde_traits::SerdeObject>::read_raw', [['SerdeObject>::from_raw_bytes']], 'delegates to the checked from_raw_bytes'),
+    (_C + 'bls12_381::g2::<impl ff::PrimeField for ' + _C + 'bls12_381::fp2::Fp2>::from_repr', ['::is_valid'], 'both coefficients < p'),
+    (_C + 'jubjub::fr::Fr::from_bytes', [_C + 'arithmetic::sbb'], 'borrow chain against the modulus'),
+    ('<' + _C + 'jubjub::fr::Fr as ff::PrimeField>::from_repr', ['jubjub::fr::Fr::from_bytes'], 'delegates to the checked from_bytes'),
+    (_C + 'curve25519::fp::Fp::from_bytes', ['::is_less_than_modulus'], 'element < p'),
+    ('<' + _C + 'curve25519::fp::Fp as ff::PrimeField>::from_repr', ['::is_less_than_modulus'], 'element < p'),
+    ('<' + _C + 'curve25519::fp::Fp as ' + _C + 'serde_traits::SerdeObject>::from_raw_bytes', ['::is_less_than_modulus'], 'limbs < p'),
+    (_C + 'k256::base_field::Fp::from_bytes', ['k256::arithmetic::field::FieldElement::from_bytes'], 'k256 crate canonical decoder'),
+    ('<' + _C + 'k256::base_field::Fp as ff::PrimeField>::from_repr', ['<k256::arithmetic::field::FieldElement as ff::PrimeField>::from_repr'], 'k256 crate canonical decoder'),
+]
+_G1A, _G1P = _C + 'bls12_381::g1::G1Affine', _C + 'bls12_381::g1::G1Projective'
+_G2A, _G2P = _C + 'bls12_381::g2::G2Affine', _C + 'bls12_381::g2::G2Projective'
+C11_DECODERS = [
+    (_G1A + '::from_compressed', ['::is_on_curve', '::is_torsion_free'], 'on curve and in the prime-order subgroup'),
+    (_G1P + '::from_compressed', ['::is_on_curve', '::is_torsion_free'], 'on curve and in the prime-order subgroup'),
+    ('<' + _G1A + ' as group::GroupEncoding>::from_bytes', ['G1Affine::from_compressed', '::is_torsion_free'], 'checked compressed decoder'),
+    ('<' + _G1P + ' as group::GroupEncoding>::from_bytes', ['G1Affine::from_compressed', '::is_torsion_free'], 'checked compressed decoder'),
+    (_G1A + '::from_uncompressed', ['::is_on_curve'], 'on curve'),
+    ('<' + _G1A + ' as ' + _C + 'serde_traits::SerdeObject>::from_raw_bytes', ['::is_on_curve'], 'on curve'),
+    ('<' + _G1A + ' as ' + _C + 'serde_traits::SerdeObject>::read_raw', ['::is_on_curve'], 'on curve'),
+    ('<' + _G1A + ' as ' + _C + 'curve::CurveAffine>::from_xy', ['::is_on_curve'], 'on curve'),
+    ('<' + _G1P + ' as ' + _C + 'curve::CurveExt>::new_jacobian', ['::is_on_curve'], 'on curve'),
+    (_G2A + '::from_compressed', ['::is_on_curve', '::is_torsion_free'], 'on curve and in the prime-order subgroup'),
+    (_G2P + '::from_compressed', ['::is_on_curve', '::is_torsion_free'], 'on curve and in the prime-order subgroup'),
+    ('<' + _G2A + ' as group::GroupEncoding>::from_bytes', ['G2Affine::from_compressed', '::is_torsion_free'], 'checked compressed decoder'),
+    ('<' + _G2P + ' as group::GroupEncoding>::from_bytes', ['G2Affine::from_compressed', '::is_torsion_free'], 'checked compressed decoder'),
+    (_G2A + '::from_uncompressed', ['::is_on_curve', '::is_torsion_free'], 'on curve and in the prime-order subgroup'),
+    ('<' + _G2A + ' as ' + _C + 'serde_traits::SerdeObject>::read_raw', ['::is_on_curve'], 'on curve'),
+    ('<' + _G2A + ' as ' + _C + 'curve::CurveAffine>::from_xy', ['::is_on_curve'], 'on curve'),
+    ('<' + _G2P + ' as ' + _C + 'curve::CurveExt>::new_jacobian', ['::is_on_curve'], 'on curve'),
+    (_C + 'jubjub::curve::JubjubAffine::from_bytes', ['JubjubAffine::from_bytes_inner', 'blst_scalar_fr_check'], 'canonical v coordinate and ZIP-216 sign handling'),
+    ('<' + _C + 'jubjub::curve::JubjubSubgroup as group::GroupEncoding>::from_bytes', ['::is_torsion_free', 'blst_scalar_fr_check'], 'prime-order subgroup and canonical coordinate'),
+    ('<' + _C + 'jubjub::curve::JubjubExtended as group::cofactor::CofactorGroup>::into_subgroup', ['::is_torsion_free'], 'prime-order subgroup'),
+    ('<' + _C + 'curve25519::affine::Curve25519Affine as group::GroupEncoding>::from_bytes', ['CompressedEdwardsY::decompress', '::is_less_than_modulus'], 'dalek decompression and canonical y'),
+    ('<' + _C + 'curve25519::curve::Curve25519 as group::GroupEncoding>::from_bytes', ['CompressedEdwardsY::decompress'], 'dalek decompression'),
+    ('<' + _C + 'k256::curve::K256Affine as group::GroupEncoding>::from_bytes', ['<k256::arithmetic::affine::AffinePoint as group::GroupEncoding>::from_bytes'], 'k256 crate checked decoder'),
+    (_C + 'k256::curve::K256Affine::from_xy', ['FromEncodedPoint>::from_encoded_point'], 'k256 crate on-curve check'),
+]
+C11_TWINS = [
+    (_G1A + '::from_compressed', _G1A + '::from_compressed_unchecked', ['::is_on_curve', '::is_torsion_free']),
+    (_G1A + '::from_uncompressed', _G1A + '::from_uncompressed_unchecked', ['::is_on_curve']),
+    (_G2A + '::from_compressed', _G2A + '::from_compressed_unchecked', ['::is_on_curve', '::is_torsion_free']),
+    (_G2A + '::from_uncompressed', _G2A + '::from_uncompressed_unchecked', ['::is_on_curve', '::is_torsion_free']),
+]
